@@ -18,7 +18,16 @@ BINS = ["c17"]
 NEEDS_CICADA = True
 ALLOWED_AXIOMS = []
 PINNED = ["C17_once", "C17_head", "C17_nonhead", "C17_stages", "C17_table", "C17_listing_iff", "C17_listing_refuted",
-          "C17_listing_full", "C17_listing"]
+          "C17_listing_full", "C17_listing",
+          "C17_alias_read_is_source_regex", "C17_alias_add_is_source_regex"]
+
+
+def gen(ctx=None):
+    """Gen/BuiltinRegexes.v from the regex literals of alias.rs (round 9; proofs in Proofs/AliasRegexProofs.v)"""
+    import regexsites
+    regexsites.gen_builtins()
+
+
 TRUSTED = [
     "Coq 8.16.1 kernel (coqc; coqchk in thorough); vm_compute only in the Example",
     "hand transcription of expand_alias, the alias table methods and the alias / unalias builtins "
